@@ -102,4 +102,13 @@ CHECKS = {
                 "inheritance rule; non-trivial = at least one layer chained after bind",
         "assumptions": ["executor stacks are modelled as layer lists (Model/Bind.v); behaviour of each layer is the other properties' business"],
     },
+    "C01": {
+        "modules": ["p_c01"],
+        "rule": "seeded random stacks: depth 1-6 over {map, flat_map, poll, retry, throttle, timeout, cancel_on_shutdown} in any order, "
+                "base sync or the real ThreadPoolExecutor (1-3 workers) run under the scheduler, 1-4 submissions from 1-3 client threads, "
+                "per-invocation outcome scripts for the callable, raising map/flat_map functions; x {random, sticky, PCT} schedules; each "
+                "submission's outcome (value / exception identity), invocation count and arguments compared with Stack.seq_eval evaluated by "
+                "the extracted Coq model; non-trivial = >= 2 submissions, >= 2 layers and a preemption",
+        "assumptions": ["PARTIAL: refinement of seq_eval by the composed implementation is validated by this differential, proved only per layer"],
+    },
 }
